@@ -782,6 +782,11 @@ func (r *c15Run) mixed() {
 		{&erc20types.MsgToggleTokenConversion{Authority: gov, Token: r.tok.Base}, &distrtypes.MsgCommunityPoolSpend{Authority: gov, Recipient: c.Users[4].Bech32(), Amount: sdk.NewCoins(chain.FXCoin(1_000_000))}},
 		{&erc20types.MsgToggleTokenConversion{Authority: gov, Token: r.tok.Base}, &erc20types.MsgUpdateDenomAlias{Authority: gov, Denom: r.tok.Base, Alias: "bsc0x0000000000000000000000000000000000000001"}},
 	}
+	// a wrapped legacy content next to a message of another type, in both orders
+	if legacy, err := govv1.NewLegacyContent(govv1beta1.NewTextProposal("text", "a text proposal in the old form"), gov); err == nil {
+		spend := &distrtypes.MsgCommunityPoolSpend{Authority: gov, Recipient: c.Users[4].Bech32(), Amount: sdk.NewCoins(chain.FXCoin(1_000_000))}
+		combos = append(combos, []sdk.Msg{legacy, spend}, []sdk.Msg{spend, legacy}, []sdk.Msg{legacy, &erc20types.MsgToggleTokenConversion{Authority: gov, Token: r.tok.Base}})
+	}
 	before := c.Dump(c.Ctx)
 	for i, msgs := range combos {
 		_, res := fix.Propose(c, r.users[0], msgs, sdk.NewCoins(chain.FXCoin(20000)), "mixed")
